@@ -122,17 +122,20 @@ def runEvents (env : Env) (flt : HogFilter) : List Ev → MS → Except Err MS
     runEvents env flt es m
 
 /-- what the harness reads off the parser object after a call: len(hog_stack), skip_this_hog, in_paralogGroup,
-    and per frame of paralog_stack (innermost first) depth, size and the number of children of its node -/
+    len(paralog_stack) and, for its innermost eight frames (innermost first), depth, size and the number of children of
+    the frame's node -/
 structure Obs where
   depth : Nat
   skipping : Bool
   inPG : Option Nat
-  frames : List (Nat × Nat × Nat)
+  nframes : Nat                         -- len(paralog_stack)
+  frames : List (Nat × Nat × Nat)       -- the innermost eight
 deriving Repr, Inhabited, DecidableEq
 
 def MS.obs (m : MS) : Obs :=
   { depth := m.hstack.length + m.skip, skipping := m.skip > 0, inPG := m.ps.inPG,
-    frames := m.ps.pstack.map fun f =>
+    nframes := m.ps.pstack.length,
+    frames := (m.ps.pstack.take 8).map fun f =>
       (f.depth, f.size, match m.ps.getDup f.did with | some b => b.members.length | none => 0) }
 
 /-- the observations after every call, and how the run ended -/
